@@ -100,6 +100,21 @@ func (fr *Frame) assumeWF(st *State, v Val) {
 }
 
 func (fr *Frame) wfTerms(st *State, t types.Type, c []Term, out *[]Term, depth int) {
+	if n, ok := types.Unalias(t).(*types.Named); ok && len(fr.en.CS.TypeInvs) > 0 && n.Obj().Pkg() != nil && !fr.inTypeInv {
+		for _, ti := range fr.en.CS.TypeInvs {
+			if ti.PkgPath != n.Obj().Pkg().Path() || ti.Elem != n.Obj().Name() {
+				continue
+			}
+			if fr.fn != nil && fr.fn.Pkg != nil && fr.fn.Pkg.Pkg.Path() == ti.PkgPath {
+				continue // inside the package the invariant may be temporarily broken
+			}
+			fr.inTypeInv = true
+			sc := &Scope{fr: fr, st: st, old: st, vars: map[string]Val{"v": {K: KNormal, T: t, C: c}}, entry: map[string]Val{}, pkg: n.Obj().Pkg()}
+			*out = append(*out, fr.evalBool(sc, ti.E))
+			fr.inTypeInv = false
+			fr.top.trusted["representation invariant of "+ti.PkgPath+"."+ti.Elem+" assumed of every value met outside the package: "+strings.TrimSpace(ti.Text[strings.Index(ti.Text, ":")+1:])] = true
+		}
+	}
 	switch u := t.Underlying().(type) {
 	case *types.Basic:
 		if isString(t) {
